@@ -413,8 +413,8 @@ pub fn property() -> Property {
         assumptions: &["float costs are multiples of 0.25 below 2^10 in magnitude, so every sum is exact and equality needs no tolerance"],
         both_profiles: false,
         subs: vec![
-            sub("negcost/general", 150_000, 4_000_000, strategy, run),
-            sub("negcost/dense-negative-dag", 60_000, 2_000_000, strategy_dense_dag, run),
+            sub("negcost/general", 3_000_000, 40_000_000, strategy, run),
+            sub("negcost/dense-negative-dag", 1_200_000, 20_000_000, strategy_dense_dag, run),
         ],
     }
 }
